@@ -65,6 +65,7 @@ func props() map[string]Prop {
 			Units: []Unit{
 				{Name: "rotate", Pkg: "internal/counter", Harness: "internal_counter", Run: "^TestVerifC02Rotate$", Instrument: counterInstr, Timeout: 20 * time.Minute},
 				{Name: "counter", Pkg: "internal/counter", Harness: "internal_counter", Run: "^TestVerifC09$", Instrument: counterInstr, Timeout: 30 * time.Minute},
+				{Name: "sched", Pkg: "internal/counter", Harness: "internal_counter", Run: "^TestVerifC09Sched$", Instrument: counterInstr, Timeout: 30 * time.Minute},
 				{Name: "uploader", Pkg: "internal/upload", Harness: "internal_upload", Run: "^TestVerifUploadSeq$", Instrument: uploadInstr, Timeout: 30 * time.Minute},
 			},
 			Assume: []string{
